@@ -69,7 +69,7 @@ struct Probe {
 	void resetCall() { ev.clear(); log.clear(); evCount = 0; draws = 0; badThis.clear(); badOrigin.clear(); memset(occ, 0, sizeof occ); }
 };
 inline Rational ScriptedRng::next() noexcept {
-	Probe& p = *probe;
+	Probe& p = *currentProbe();
 	const size_t i = (size_t) p.draws++;
 	return i < p.sc.rng.size() ? p.sc.rng[i] : Rational{0, 1};
 }
@@ -203,7 +203,7 @@ template <typename C> static hfsm2::StateID originOf(const C& c) { return c.stat
 
 template <typename C>
 static void probeCall(C& c, int id, int method, const void* self, bool injected) {
-	Probe& p = *c._().probe;
+	Probe& p = *c._()->probe;
 	std::string me = injected ? std::string("i_") + kMethodNames[method] : std::string(kMethodNames[method]);
 	const int occurrence = ++p.occ[id][method + (injected ? 20 : 0)];
 	if (p.evCount++) p.ev += ',';
@@ -219,7 +219,7 @@ static void probeCall(C& c, int id, int method, const void* self, bool injected)
 
 template <typename C>
 static void probeReport(const C& c, int id, int method) {
-	Probe& p = *c._().probe;
+	Probe& p = *c._()->probe;
 	if (p.evCount++) p.ev += ',';
 	p.ev += '['; jint(p.ev, id + 1); p.ev += ",\""; p.ev += kMethodNames[method]; p.ev += "\",-1,[],-1,-1,-1,[],[]]";
 }
@@ -270,10 +270,10 @@ struct Own : OwnBase<ID, isInj(ID)> {
 	void exitGuard (typename Base::GuardControl& c)				{ probeCall(c, ID, M_EXIT_GUARD,  this, false); }
 	void exit      (typename Base::PlanControl& c)				{ probeCall(c, ID, M_EXIT,        this, false); }
 
-	hfsm2::Prong select(const typename Base::Control& c)		{ probeReport(c, ID, M_SELECT); return (hfsm2::Prong) (c._().probe->sc.sel[ID] - 1); }
+	hfsm2::Prong select(const typename Base::Control& c)		{ probeReport(c, ID, M_SELECT); return (hfsm2::Prong) (c._()->probe->sc.sel[ID] - 1); }
 #ifdef HFSM2_ENABLE_UTILITY_THEORY
-	typename Base::Rank    rank   (const typename Base::Control& c)	{ probeReport(c, ID, M_RANK);    return (typename Base::Rank) c._().probe->sc.rank[ID]; }
-	typename Base::Utility utility(const typename Base::Control& c)	{ probeReport(c, ID, M_UTILITY); return c._().probe->sc.util[ID]; }
+	typename Base::Rank    rank   (const typename Base::Control& c)	{ probeReport(c, ID, M_RANK);    return (typename Base::Rank) c._()->probe->sc.rank[ID]; }
+	typename Base::Utility utility(const typename Base::Control& c)	{ probeReport(c, ID, M_UTILITY); return c._()->probe->sc.util[ID]; }
 #endif
 };
 
